@@ -605,8 +605,7 @@ theorem C20_drop_all_clean (S : Schema) (a : Alloc σ) (ha : a.Valid) (ops : Lis
 
 open KrroodVerif.Drive.SG in
 /-- **C20_no_garbage_run_harness.** The instance the correspondence runs: the harness's schema (which has container fields
-whose inference overwrites scalar fields: `children` / `parent`, `members` → `member_of` …), classes defined on the way
-included. -/
+whose inference overwrites a scalar field: `Org.children` (10) / `Org.parent` (11)), classes defined on the way included. -/
 theorem C20_no_garbage_run_harness (extra : List (Cls × Cls)) (a : Alloc σ) (ha : a.Valid) (ops : List Op) :
     (run Quirks.asIs (schemaWith extra) a ops).h.garbage Quirks.asIs = [] :=
   C20_no_garbage_run _ a ha ops
@@ -616,6 +615,14 @@ example : cexSchema.ContainerClosed :=
   ⟨fun _ _ _ _ h => by simp [cexSchema] at h, fun _ _ _ _ h => by simp [cexSchema] at h,
    fun _ _ _ _ h => by simp [cexSchema] at h, fun _ _ _ _ h => by simp [cexSchema] at h,
    fun _ _ _ _ _ => by simp [cexSchema]⟩
+/-- the harness schema is NOT container-closed any more: `children.append` overwrites `parent`; the overwritten parent dies
+with the `append` -/
+example :
+    let ops : List Op := [.new 0 1 0, .new 1 1 1, .new 2 1 2, .set 10 0 2, .drop 0, .set 10 1 2]
+    (run Quirks.asIs Drive.SG.schema lifo (ops.take 5)).h.live.map (·.obj) = [0, 1, 2] ∧
+    (run Quirks.asIs Drive.SG.schema lifo ops).h.live.map (·.obj) = [1, 2] ∧
+    (run Quirks.asIs Drive.SG.schema lifo ops).h.fields.map (fun e => (e.owner, e.fld, e.val)) = [(2, 11, 1), (1, 10, 2)] := by
+  decide
 /-- a history that ends with nothing held, after relations, a role and queries (harness schema) -/
 example :
     let st := run Quirks.asIs Drive.SG.schema lifo
